@@ -428,7 +428,9 @@ public:
       for (unsigned i = 0, sz = m_disjuncts.size(); i < sz; ++i) {
         m_disjuncts[i] -= v;
         if (m_disjuncts[i].is_top()) {
+          // set_to_top replaces all disjuncts by a single one
           set_to_top();
+          return;
         }
       }
     }
